@@ -29,7 +29,8 @@ PROP = 'C18'
 LEVEL = 'translation_validation'
 PROPS_MODULES = ['RTV.Props.C18']
 GEN = ['chartables']
-REQUIRED_THEOREMS = ['sanitize_fstring_roundtrip', 'create_entry_roundtrip', 'nested_regex_faithful', 'simple_regex_faithful',
+REQUIRED_THEOREMS = ['sanitize_fstring_roundtrip', 'create_entry_roundtrip', 'create_entry_roundtrip_tied',
+                     'create_entry_cr_breaks', 'nested_regex_faithful', 'simple_regex_faithful',
                      'params_regex_faithful', 'dict_entry_faithful', 'dictionary_faithful', 'list_entry_raw',
                      'default_writer_faithful', 'default_writer_value', 'bool_writer_faithful', 'regex_definition_faithful',
                      'nested_regex_duplicate_reference', 'nested_regex_invalid_name', 'default_writer_brace_doubled',
